@@ -2620,6 +2620,9 @@ func (s *swamp) DeleteTreasure(key string, shadowDelete bool) error {
 		verifhook.Point("swamp.autodestroy", verifhook.ID(s), 1)
 		s.CeaseVigil()
 		s.Destroy()
+		// re-acquire the vigil released above: the caller's own CeaseVigil still runs
+		// (deferred in every gateway handler) and would otherwise drive the counter to -1
+		s.BeginVigil()
 		return nil
 	}
 
@@ -2659,6 +2662,9 @@ func (s *swamp) CloneAndDeleteExpiredTreasures(howMany int32) ([]treasure.Treasu
 		verifhook.Point("swamp.autodestroy", verifhook.ID(s), 2)
 		s.CeaseVigil()
 		s.Destroy()
+		// re-acquire the vigil released above: the caller's own CeaseVigil still runs
+		// (deferred in every gateway handler) and would otherwise drive the counter to -1
+		s.BeginVigil()
 	}
 
 	// return with the shifted treasures
@@ -2731,6 +2737,9 @@ func (s *swamp) CloneAndDeleteMatchingTreasures(beaconType BeaconType, order Bea
 		verifhook.Point("swamp.autodestroy", verifhook.ID(s), 3)
 		s.CeaseVigil()
 		s.Destroy()
+		// re-acquire the vigil released above: the caller's own CeaseVigil still runs
+		// (deferred in every gateway handler) and would otherwise drive the counter to -1
+		s.BeginVigil()
 	}
 
 	return shiftedTreasures, capReached, nil
@@ -2799,6 +2808,9 @@ func (s *swamp) CloneAndDeleteTreasuresByKeys(keys []string) ([]treasure.Treasur
 		verifhook.Point("swamp.autodestroy", verifhook.ID(s), 4)
 		s.CeaseVigil()
 		s.Destroy()
+		// re-acquire the vigil released above: the caller's own CeaseVigil still runs
+		// (deferred in every gateway handler) and would otherwise drive the counter to -1
+		s.BeginVigil()
 	}
 
 	return result, nil
